@@ -6,6 +6,7 @@ import (
 	"os"
 	"path/filepath"
 	"reflect"
+	"regexp"
 	"strings"
 	"sync"
 	"sync/atomic"
@@ -98,6 +99,28 @@ func (s *Scen) inconclusive(f string, a ...interface{}) {
 		s.Fail([]string{"C05", "C14", s.Prop}, "controller-wedged", "the controller's lock has been held for more than 45 s (ten rpc deadlines) - I/O and management requests hang; last events: "+strings.Join(tailStr(s.Cl.Events, 6), " | ")+"; then: "+fmt.Sprintf(f, a...))
 		return
 	}
+	if s.Cl != nil && !s.Dead {
+		// not a slow run either: a replica process that ends with the same fatal error again and again (three times in
+		// a row, ignoring failed file transfers and refused connections, which a loaded machine can cause) will not
+		// come back however long one waits - its directory or what its peers report about theirs is in a state the
+		// code cannot get out of
+		modes := s.Cl.Modes()
+		for _, p := range s.Cl.Reps {
+			others := 0
+			for _, q := range s.Cl.Reps {
+				if q != p && modes[q.Addr] == types.RW {
+					others++
+				}
+			}
+			if others != len(s.Cl.Reps)-1 {
+				continue // something else is going on in this volume; the loop may be a consequence of that
+			}
+			if msg, n := fatalLoop(p.Log); n >= 3 {
+				s.Fail([]string{"C07", "C12", "C08"}, "replica-restart-loop:"+msg, fmt.Sprintf("replica %d ended %d times in a row with the same fatal error and never rejoined: %s; then: %s", p.Idx, n, msg, fmt.Sprintf(f, a...)))
+				return
+			}
+		}
+	}
 	s.Dead = true
 	if keep := os.Getenv("VERIF_DEV_KEEP"); keep != "" && s.Cl != nil {
 		os.MkdirAll(keep, 0755)
@@ -110,6 +133,43 @@ func (s *Scen) inconclusive(f string, a ...interface{}) {
 		}
 	}
 	s.Res.Inconclusive = append(s.Res.Inconclusive, fmt.Sprintf("case %d: ", s.Case)+fmt.Sprintf(f, a...))
+}
+
+var (
+	fatalRe  = regexp.MustCompile(`level=fatal msg="((?:[^"\\]|\\.)*)"`)
+	snapRe   = regexp.MustCompile(`volume-(snap|head)-[0-9A-Za-z-]+\.img`)
+	numberRe = regexp.MustCompile(`[0-9]+`)
+)
+
+// fatalLoop returns the (normalised) fatal message a replica's log ends with and how many times in a row it occurs.
+func fatalLoop(logPath string) (string, int) {
+	b, err := os.ReadFile(logPath)
+	if err != nil {
+		return "", 0
+	}
+	var msgs []string
+	for _, m := range fatalRe.FindAllStringSubmatch(string(b), -1) {
+		t := snapRe.ReplaceAllString(m[1], "<file>")
+		t = numberRe.ReplaceAllString(t, "N")
+		if len(t) > 120 {
+			t = t[:120]
+		}
+		msgs = append(msgs, t)
+	}
+	if len(msgs) == 0 {
+		return "", 0
+	}
+	last := msgs[len(msgs)-1]
+	for _, env := range []string{"ExitCode", "connection refused", "timeout", "EOF", "connection reset", "i/o timeout", "broken pipe", "Failed to find good replica", "wait for some time"} {
+		if strings.Contains(last, env) {
+			return last, 0
+		}
+	}
+	n := 0
+	for i := len(msgs) - 1; i >= 0 && msgs[i] == last; i-- {
+		n++
+	}
+	return last, n
 }
 
 // monitor samples the controller's replica modes and enforces the
@@ -653,7 +713,7 @@ func RunRebuild(s *Scen, r *vk.Rand, a, b int, bin, base string, cycles int) {
 			s.inconclusive("restart: %v", err)
 			return
 		}
-		interrupt := (s.Case/100 + cyc*5 + r.Intn(2)*8) % 8 // every kind of interruption occurs across the workers of a run
+		interrupt := (s.Case/100 + cyc*5) % 9 // every kind of interruption occurs across the workers of a run
 		if s.Prop == "C04" && cyc == 0 {
 			interrupt = 0 // a plain rejoin: the replica missed writes, is rebuilt once and then serves reads
 		}
@@ -704,6 +764,34 @@ func RunRebuild(s *Scen, r *vk.Rand, a, b int, bin, base string, cycles int) {
 			s.Res.Count("file_transfer_senders_killed", int64(killed))
 			s.Res.Count(fmt.Sprintf("rebuilds_with_failing_transfers_kind%d", interrupt), 1)
 			cl.event("killed %d ssync senders feeding replica %d during %v", killed, x.Idx, window)
+		}
+		if interrupt == 8 {
+			// the rebuilding replica (and its sync agent) die right after the first metadata file has arrived: whatever
+			// order the files travel in, the directory left behind must open again and the next attempt must succeed
+			deadline := time.Now().Add(60 * time.Second)
+			hit := false
+			for time.Now().Before(deadline) && !hit {
+				b, _ := os.ReadFile(x.Log)
+				if int64(len(b)) > logFrom {
+					for _, l := range strings.Split(string(b[logFrom:]), "\n") {
+						if strings.Contains(l, "Done synchronizing") && strings.Contains(l, ".img.meta to") {
+							hit = true
+							break
+						}
+					}
+				}
+				if !hit {
+					time.Sleep(time.Millisecond)
+				}
+			}
+			if hit {
+				s.Res.Count("rebuilds_interrupted_after_the_first_metadata_file", 1)
+				cl.event("interrupting rebuild of replica %d after its first metadata file arrived", x.Idx)
+				cl.Kill(x, true)
+				time.Sleep(time.Duration(r.Range(50, 300)) * time.Millisecond)
+				mon.restarted(x.Addr)
+				cl.StartRep(x)
+			}
 		}
 		if interrupt > 0 && interrupt < 4 {
 			marker := []string{"", "Addreplica", "syncFiles", "reloadAndVerify"}[interrupt]
